@@ -19,7 +19,8 @@ TEXT = ("P1 (purity / effect analysis): the transitive callee closure inside the
         "Display templates (decoded from the format_args! template constants) equal the literal separators and "
         "named-group order of the parser's regex constants, for Revision and for DeltaId. P4: eq and hash read the same "
         "field set, partial_cmp = Some(cmp), cmp yields Equal only on equal printed forms, which cover every field. "
-        "Does not decide collision-freeness of the 28-bit tail.")
+        "Does not decide collision-freeness of the 28-bit tail."
+        " P4b: eq answers true only under equality of every field, hash feeds every field on every path.")
 TECHNIQUE = 'static analysis over rustc MIR: field provenance of revision constructors, print/parse template agreement, Eq/Hash/Ord field-set consistency and symbolic evaluation of the comparator'
 TRUSTED = ["rustc nightly MIR", "sha2, hex, regex, serde_json behave as documented", "format_args! template encoding of this nightly (0xC0 = plain placeholder, n<0x80 = literal of n bytes)"]
 
